@@ -37,6 +37,7 @@ def api_tail(rng, nreac, can_edit=True, can_export=True, extras=()):
     k = rng.choice([1, 2, 2, 3, 4])
     removed = 0
     prev = None
+    edited_since = None
     for j in range(k):
         r = rng.random()
         if prev is not None and r < 0.3:
@@ -49,8 +50,12 @@ def api_tail(rng, nreac, can_edit=True, can_export=True, extras=()):
         else:
             s_, m_, d_ = rng.choice(METHODS)
             st = {"s": "export", "solver": s_, "method": m_, "device": d_}
+        if edited_since is not None and st["s"] == "render" and rng.random() < 0.5:
+            # re-render IN PLACE after the edit: same request, same directory as the render before it
+            st = dict(edited_since, inplace=True)
         steps.append(st)
         prev = st
+        edited_since = None
         if j < k - 1 and can_edit and rng.random() < 0.45:
             if extras and rng.random() < 0.5:
                 steps.append(extras.pop())
@@ -58,6 +63,8 @@ def api_tail(rng, nreac, can_edit=True, can_export=True, extras=()):
             elif nreac - removed >= 2:
                 steps.append({"s": "rm_idx", "i": 0})
                 removed += 1
+            if prev["s"] == "render":
+                edited_since = {kk: vv for kk, vv in prev.items() if kk != "inplace"}
             prev = None
     return steps
 
